@@ -87,6 +87,53 @@ def after_bind(ctx):
                               inp, f"sign_header={bool(s_)}", f"sign_header={want}")
 
 
+
+def reply_sizes(ctx):
+    """the reply's own lengths decide how it is taken apart: a sealed response whose signature size (auth_len) differs from the size the
+    client's context reports for requests (another mechanism's token size, a different checksum) must still be split at the offsets its
+    header declares — exactly stub ‖ declared padding goes to the security context, and the caller gets exactly that region back"""
+    from dpapi_ng import _client as cl
+    rng = ctx.rng
+    for hl_c in (16, 28):
+        for hl_r in (16, 28, 60, 76):
+            for n in (4, 33, 296):
+                for sign in (False, True):
+                    for use_async in (False, True):
+                        stub = bytes(rng.randrange(256) for _ in range(n))
+                        auth = rpcfmt.ScriptedProvider(header_len=hl_c)
+                        reply, plain = rpcsim.sealed_response(stub, hl_r, sign)
+                        inp = {"scenario": "reply_sizes", "client_signature_size": hl_c, "reply_auth_len": hl_r, "reply_stub_len": n, "sign_header": sign, "async": use_async}
+                        ctx.count(f"reply_sizes:{'same' if hl_c == hl_r else 'different'}")
+                        try:
+                            if use_async:
+                                async def go():
+                                    reader = asyncio.StreamReader()
+                                    reader.feed_data(reply)
+                                    c = rpcsim.async_client(reader, rpcsim.FakeWriter(), auth)
+                                    c._sign_header = sign
+                                    return await c.request(0, 0, b"\x00" * 8)
+                                resp = asyncio.run(go())
+                            else:
+                                c = rpcsim.sync_client(rpcsim.FakeSocket(replies=[reply]), auth)
+                                c._sign_header = sign
+                                resp = c.request(0, 0, b"\x00" * 8)
+                        except Exception as e:  # noqa
+                            ctx.violation("an authentic sealed reply is not accepted when its signature size differs from the request's", inp, canon_exc(e), "the stub")
+                            return
+                        (h_, b_, t_, sig_, s_) = auth.unwrap_calls[-1]
+                        problems = []
+                        if len(b_) != len(plain):
+                            problems.append(f"security context was handed {len(b_)} octets, the sealed region (stub + declared padding) has {len(plain)}")
+                        if len(sig_) != hl_r:
+                            problems.append(f"signature handed to the context has {len(sig_)} octets, the reply declares auth_len {hl_r}")
+                        pad = resp.sec_trailer.pad_length if resp.sec_trailer else None
+                        if bytes(resp.stub_data) != plain or pad != (-n) % 16:
+                            problems.append("the response's stub / pad_length differ from what the server sealed")
+                        if problems:
+                            ctx.violation("reply path: " + problems[0], inp, "; ".join(problems)[:300], "split at the reply's own auth_len")
+                            return
+
+
 def run(ctx):
     from dpapi_ng import _client as cl
     from dpapi_ng._gkdi import GetKey
@@ -178,6 +225,7 @@ def run(ctx):
     for i in range(0, len(cases), 2000):
         ctx.compare_batch(cases[i:i + 2000], nontrivial=lambda line, impl: True)
     after_bind(ctx)
+    reply_sizes(ctx)
 
 
 def search(ctx, broken, disagreements):
